@@ -1,9 +1,22 @@
 import BlockCiphers.Proofs.BlowfishSpec
+import BlockCiphers.Proofs.GenTables
 /-
 C14 — bcrypt (eksblowfish) key-setup primitives follow Provos–Mazières
 GENERATED statement file (tools/gen_thm.py): every theorem below restates, verbatim, a theorem of a Proofs/ module
 and is proved by applying it.  ONLY property theorems and non-vacuity examples live in Thm/.
 -/
+
+namespace BC.GenTables
+open BC.Gen
+theorem C14.bcrypt_blowfish_P_eq : blowfish_P.toList = nats32 BC.Blowfish.Consts.P :=
+  _root_.BC.GenTables.blowfish_P_eq
+end BC.GenTables
+
+namespace BC.GenTables
+open BC.Gen
+theorem C14.bcrypt_blowfish_S_eq : blowfish_S.toList = nats32 BC.Blowfish.Consts.S :=
+  _root_.BC.GenTables.blowfish_S_eq
+end BC.GenTables
 
 namespace BC.Blowfish
 /-- the 4-entries-per-pass S loop with the running salt offset = the reference 2-entries loop with
